@@ -25,3 +25,6 @@ pub(crate) use solver::SchedulingSolution;
 
 #[cfg(test)]
 pub(crate) use batches::PriorityCut;
+
+#[cfg(it4innovations_hyperqueue_verif)]
+pub(crate) use taskqueue::verif_queue_snapshot;
